@@ -250,6 +250,61 @@ func checkMassiveState(r *evid.Run, pool *wproto.Pool, d *DocState, c *tok.Conc,
 	}
 }
 
+// checkMassiveFromRoot: the first tree of an accepted document, built with NewRoot/Add, through the From-Root
+// operations with and without the massive option: one root, so the results are equal, not equal up to order.
+func checkMassiveFromRoot(r *evid.Run, pool *wproto.Pool, d *DocState, c *tok.Conc, rng *rand.Rand) {
+	if d.Verdict != "accept" || len(d.Forest) == 0 {
+		return
+	}
+	var items []wproto.Item
+	var rec func(t *Tree, depth int)
+	rec = func(t *Tree, depth int) {
+		items = append(items, wproto.Item{D: depth, N: c.Seq(t.Name)})
+		for _, k := range t.Kids {
+			rec(k, depth+1)
+		}
+	}
+	rec(d.Forest[0], 1)
+	br := []string{c.LD, c.LI, c.MD, c.MI}
+	for _, route := range []string{"root-text", "root-json", "root-dryrun", "root-walk"} {
+		rq := wproto.Req{Route: "root", Items: items, Branches: br, Alias: d.N%3 == 0}
+		switch route {
+		case "root-text":
+			rq.Op = "output"
+		case "root-json":
+			rq.Op, rq.Format, rq.Branches = "output", "json", nil
+		case "root-dryrun":
+			rq.Op, rq.DryRun, rq.Exts = "output", true, []string{c.Seq([]string{"b"})}
+		case "root-walk":
+			rq.Op = "walk"
+		}
+		simple := pool.Call(rq, 30*time.Second)
+		mq := perturb(rq, rng)
+		mq.Massive = true
+		massive := pool.Call(mq, 60*time.Second)
+		r.Count("real_calls", 2)
+		rep := c10Replay{Doc: d.Doc, Bytes: c.Doc(d.Doc), Route: route, Verdict: d.Verdict, Req: mq, Massive: massive, Simple: simple}
+		name := "massive-" + route
+		if massive.Class == "panic" || massive.Class == "hang" {
+			r.Mismatch(name+":"+massive.Class, fmt.Sprintf("items=%v: %s", items, massive.Err), rep)
+			continue
+		}
+		if simple.Class == "panic" || simple.Class == "hang" {
+			continue
+		}
+		switch {
+		case (massive.Class == "ok") != (simple.Class == "ok"):
+			kind := "error-only-in-massive"
+			if massive.Class == "ok" {
+				kind = "error-only-in-simple"
+			}
+			r.Mismatch(name+":"+kind, fmt.Sprintf("items=%v simple=%s(%q) massive=%s(%q) out=%q", items, simple.Class, simple.Err, massive.Class, massive.Err, massive.Out), rep)
+		case massive.Class == "ok" && (massive.Out != simple.Out || !sameStrs(massive.Walk, simple.Walk)):
+			r.Mismatch(name+":result-differs", fmt.Sprintf("items=%v simple=%q %q massive=%q %q", items, simple.Out, simple.Walk, massive.Out, massive.Walk), rep)
+		}
+	}
+}
+
 // walkOrderPreserved: for forests whose root blocks have pairwise disjoint rows, the callbacks of each
 // root appear in the root's own (pre-)order.
 func walkOrderPreserved(rows []string, d *DocState, c *tok.Conc) bool {
@@ -328,12 +383,15 @@ func checkC10(r *evid.Run) {
 				r.Sample(map[string]any{"doc": conc.Doc(d.Doc), "verdict": d.Verdict, "sigma": d.Sigma})
 			}
 			checkMassiveState(r, pool, d, conc, rng, rs)
+			if d.N%(3*stride[mod]) == 0 {
+				checkMassiveFromRoot(r, pool, d, conc, rng) // the From-Root family on every third document
+			}
 		})
 	}
 	bigRoots(r, pool)
 	reproduceOpenC10(r, pool)
 	r.Set("exhaustive", false)
-	r.Set("rule", "documents of the spelling model MC_C15 (every notation incl. # roots, blank lines, CRLF; a third of the states), of the malformed-line pool MC_C02 (all states) and of MC_C01 (half), each run through text, JSON, YAML, dry-run, walk (all) and mkdir, verify (every fourth) in simple and in massive mode with GOMAXPROCS in {1,2,4,16}, seeded hook delays and yielding reader/writer/callback; massive output must be a permutation of the specification's per-root blocks, each in one piece; error iff simple mode; same filesystem; non-trivial = at least 2 roots")
+	r.Set("rule", "documents of the spelling model MC_C15 (every notation incl. # roots, blank lines, CRLF; a third of the states), of the malformed-line pool MC_C02 (all states) and of MC_C01 (half), each run through text, JSON, YAML, dry-run, walk (all) and mkdir, verify (every fourth) in simple and in massive mode with GOMAXPROCS in {1,2,4,16}, seeded hook delays and yielding reader/writer/callback; massive output must be a permutation of the specification's per-root blocks, each in one piece; error iff simple mode; same filesystem; the first tree of every third accepted document also built with NewRoot/Add and run through the From-Root operations (text, JSON, dry-run, walk) with and without the massive option (equal results); non-trivial = at least 2 roots")
 }
 
 // parserSharedModels: the generator stage with its shared parser (ParserShared.tla). Documents in one
